@@ -165,6 +165,15 @@ async def play(lab: L.Lab, case: dict, port: int, bind_port: int | None) -> dict
         elif op == 'resume_reading':
             if cur:
                 cur.reading = True
+        elif op == 'sndbuf':
+            # the operating system's send buffer for ExaBGP's established sockets (a host tuned with small buffers)
+            import socket as _socket
+
+            for p_ in lab.peers():
+                io = getattr(getattr(p_.proto, 'connection', None), 'io', None) if p_.proto else None
+                if io is not None:
+                    io.setsockopt(_socket.SOL_SOCKET, _socket.SO_SNDBUF, args[0])
+                    lab.event('sndbuf', value=io.getsockopt(_socket.SOL_SOCKET, _socket.SO_SNDBUF))
         elif op == 'api':
             helper = helper or lab.helper()
             if helper is None:
@@ -213,7 +222,7 @@ async def play(lab: L.Lab, case: dict, port: int, bind_port: int | None) -> dict
         elif op == 'chmod_config':
             os.chmod(lab.config_path, args[0])
         elif op == 'mark':
-            lab.event('mark', name=args[0], session=cur.id if cur else None)
+            lab.event('mark', name=args[0], session=cur.id if cur else None, writes_started=lab.writes_started, writes_done=lab.writes_done, last_write_done=round(lab.last_write_done, 4))
         else:
             raise ValueError('unknown step ' + op)
     helper = helper or lab.helper()
@@ -256,7 +265,7 @@ def _child(case: dict):
     env = dict(case.get('env', {}))
     text = case.get('config_text') or config_text(c, port)
     lab = L.Lab(text, quantum=case.get('quantum', 0.0002), env=env, bind_port=bind_port)
-    lab.listen(port, case.get('policy', 'accept'))
+    lab.listen(port, case.get('policy', 'accept'), case.get('rcvbuf'))
 
     async def scenario(lab):
         return await play(lab, case, port, bind_port)
